@@ -781,13 +781,14 @@ func (e *Enc) callSiteAsserts(x *ssa.Call, cc *callCtx) {
 		}
 		name = callee.Name()
 	}
+	// the ordinal of this call among the calls of that name in the function (encoding order), counted once per call
+	siteKey := "callsite:" + name
+	e.r.siteCnt[siteKey]++
+	n := e.r.siteCnt[siteKey]
 	for _, ca := range e.ct.CallAsserts {
 		if ca.Callee != name {
 			continue
 		}
-		key := "callsite:" + name
-		e.r.siteCnt[key]++
-		n := e.r.siteCnt[key]
 		if ca.Site != 0 && ca.Site != n {
 			continue
 		}
